@@ -4,7 +4,7 @@
    Len(Encode(v)) = Size(v) <= MaxSize(v)) and the C03 statements on the reference decoder (total, makes progress,
    never reads past the input, decoded values re-encode to themselves). *)
 EXTENDS WireVals
-CONSTANTS L
+CONSTANTS L, Part          \* Part: "c05" (values), "c03" (inputs) or "all"
 VARIABLE v
 
 \* The values are partitioned into buckets so that the workers evaluate them in parallel:
@@ -26,7 +26,7 @@ Bucket(b) ==
       [] b.kind = "in" /\ b.t < 256 -> { In(s, b.s) : s \in PayloadStringsOf(b.t, L) }
       [] b.kind = "in" /\ b.t = 256 -> { In(EncodeFrame(fr), pt) : fr \in RejectedFrameVals, pt \in PTypes } \cup { In(<<>>, pt) : pt \in PTypes }
 
-Init == v \in Buckets
+Init == v \in { b \in Buckets : Part = "all" \/ (Part = "c03") = (b.kind = "in") }
 MCNext == v.c = "bucket" /\ v' \in Bucket(v)
 View == v
 
